@@ -307,10 +307,19 @@ def p_index_garbage(ctx, scn, kind):
         scn.fs_append(bp, b"\r\n\r\n")
     elif kind == "bucket-is-dir":
         scn.fs_mkdir_p(bucket_path_of(scn, "other"))
-    r = scn.open("k", {"time": 3000})
-    if r.kind == "ok":
-        scn.hwrite_all(r.handle, b"three")
-        scn.commit(r.handle)
+    elif kind in ("valid-record-unusable-integrity", "valid-record-unusable-integrity-last"):
+        # a checksum-valid record for the same key whose integrity string names no usable hash (written by a
+        # tool, or by index::insert with an empty Integrity): every flavour must treat it the same way
+        scn.fs_append(bp, refmodel.record_bytes("k", "", 2500, 9))
+        scn.metadata("k")
+        scn.read("k")
+        scn.fs_append(bp, refmodel.record_bytes("k", "md5-AAAA", 2600, 9))
+        scn.metadata("k")
+    if not kind.endswith("-last"):
+        r = scn.open("k", {"time": 3000})
+        if r.kind == "ok":
+            scn.hwrite_all(r.handle, b"three")
+            scn.commit(r.handle)
     scn.metadata("k")
     scn.read("k")
     scn.metadata("other")
@@ -362,7 +371,7 @@ def tasks(tier, flavours):
             P.append(("p_damaged", dict(damage=damage, retrieval=retrieval)))
     for op in ("remove", "remove_hash", "remove_fully", "remove_missing", "clear"):
         P.append(("p_removals", dict(op=op)))
-    for kind in ("invalid-utf8-line", "torn", "nul", "crlf", "bucket-is-dir"):
+    for kind in ("invalid-utf8-line", "torn", "nul", "crlf", "bucket-is-dir", "valid-record-unusable-integrity", "valid-record-unusable-integrity-last"):
         P.append(("p_index_garbage", dict(kind=kind)))
     for order in (("sync", "async"), ("async", "sync")):
         P.append(("p_mixed", dict(order=order)))
